@@ -11,6 +11,7 @@ import (
 	"time"
 
 	dht "github.com/anacrolix/dht/v2"
+	"github.com/anacrolix/dht/v2/krpc"
 
 	"pgregory.net/rapid"
 
@@ -50,6 +51,10 @@ type C08Msg struct {
 	// SameT: when the message is injected, a query of this node to the message's source is outstanding,
 	// and the message carries that query's transaction ID instead of T.
 	SameT bool
+	// Known: before the batch, the sender is put into the routing table through AddNode under the ID it
+	// will use: 1 = with its address in the byte form the socket reports, 2 = in the other byte form of
+	// the same IPv4 address (4-byte <-> v4-mapped 16-byte).
+	Known int
 }
 
 type C08Sc struct {
@@ -128,6 +133,16 @@ func genC08(t *rapid.T) C08Sc {
 			m.Token = rapid.SampledFrom([]string{"valid", "valid", "bogus", "absent"}).Draw(t, "token")
 			m.V = genBV(t, 1, "v").Encode(true)
 			m.SenderID = genBytesN(t, 20, "senderid")
+			switch uniformInt(t, 10, "senderid.kind") {
+			case 0: // claims the node's own ID
+				m.SenderID = append(kit.Hex(nil), sc.Cfg.NodeID...)
+			case 1: // the node's nearest possible neighbour
+				m.SenderID = append(kit.Hex(nil), sc.Cfg.NodeID...)
+				m.SenderID[19] ^= 1
+			case 2:
+				m.SenderID = make(kit.Hex, 20)
+			}
+			m.Known = []int{0, 0, 0, 1, 2}[uniformInt(t, 5, "known")]
 			m.RO = rapid.IntRange(0, 5).Draw(t, "ro") == 0
 			m.PutSeq = rapid.Int64Range(0, 3).Draw(t, "putseq")
 			m.PutVal = rapid.IntRange(0, len(c13Values)-1).Draw(t, "putval")
@@ -146,6 +161,12 @@ func compactAddrMatches(b string, src *net.UDPAddr) bool {
 	}
 	ip := net.IP([]byte(b[:len(b)-2]))
 	port := int(b[len(b)-2])<<8 | int(b[len(b)-1])
+	if len(src.IP) == 4 && len(b) != 6 {
+		return false // an IPv4 socket's peer has a 6-byte compact address
+	}
+	if src.IP.To4() == nil && len(b) != 18 {
+		return false
+	}
 	return port == src.Port && ip.Equal(src.IP)
 }
 
@@ -282,6 +303,26 @@ func runC08(sc C08Sc, c *kit.Case) *kit.Violation {
 					}
 				}
 			}
+		}
+		for _, m := range batch {
+			if m.Known == 0 || m.Kind != "query" || arr20(m.SenderID) == [20]byte{} {
+				continue // (AddNode with a zero ID pings instead of adding)
+			}
+			ip := m.Src.NetIP()
+			if m.Known == 2 {
+				if ip4 := ip.To4(); ip4 != nil {
+					if len(ip) == 4 {
+						ip = ip.To16()
+					} else {
+						ip = ip4
+					}
+					c.Label("known-in-other-byte-form")
+				}
+			}
+			sv.S.AddNode(krpc.NodeInfo{ID: arr20(m.SenderID), Addr: krpc.NodeAddr{IP: append(net.IP(nil), ip...), Port: m.Src.Port}})
+		}
+		if !sv.barrier(c) {
+			return nil
 		}
 		// start the outbound queries whose transaction IDs the SameT messages will carry
 		var obCancels []context.CancelFunc
